@@ -36,8 +36,9 @@ SEGS_LOOK = ['\u2025', '\uff0e\uff0e', '\u2025\uff0fsecret.txt', '\uff0e\uff0e\u
 
 # how the root reaches the filesystem.  (name, via)
 CONFIGS = ['abs', 'abs_slash', 'pathlike', 'rel', 'rel_dot_slash', 'rel_updown', 'chain_plain', 'chain_sub',
-           'chain_sub_slash']
+           'chain_sub_slash', 'chain_up', 'chain_evil', 'chain_sub_evil']
 OPS = ['in', 'getitem', 'open_bin', 'open_str', 'walk']
+ESCAPING_PREFIX_CONFIGS = ('chain_up', 'chain_evil', 'chain_sub_evil')
 OPS_SEQ = OPS + ['in', 'open_bin']     # per (file system, path): every operation, then the first ones again (a repeated request)
 
 INSIDE = {
@@ -175,6 +176,13 @@ def make_systems(world: World) -> dict:
     ch = FileSystemChain()
     ch.add_sys(RawFileSystem(root + '/'), 'sub/', priority=True)
     out['chain_sub_slash'] = (ch, 'sub/')
+    # the subfolder given for a chain member itself points out of the member's root: every name is then outside (or back inside
+    # only through a matching descent) - the member's containment check has to see the joined path
+    out['chain_up'] = (FileSystemChain((RawFileSystem(root), '..')), '..')
+    out['chain_evil'] = (FileSystemChain((RawFileSystem(root), '../root_evil')), '../root_evil')
+    ch2 = FileSystemChain()
+    ch2.add_sys(RawFileSystem(root), 'sub/../../root_evil')
+    out['chain_sub_evil'] = (ch2, 'sub/../../root_evil')
     # an UNCONSTRAINED file system on the same root: asked for every path first (anything it answers is legitimate for it);
     # nothing it did may change what the constrained systems answer afterwards
     out['__twin'] = (RawFileSystem(root, constrain_path=False), '')
@@ -557,6 +565,8 @@ def shard(spec) -> core.Acc:
                     cand_cache[prefix] = candidates(world, prefix, p)
                 narrow, broad = cand_cache[prefix]
                 for op in OPS_SEQ:      # one file-system object serves the whole shard: repeated identical requests included
+                    if op == 'walk' and cfg in ESCAPING_PREFIX_CONFIGS:
+                        continue        # how listed names relate to a prefix that leaves the member's root is not defined; data access is
                     check_call(acc, world, cfg, fs, prefix, op, segs, seps, p, narrow, broad)
             check_unify(acc, world, segs, seps, p)
             check_packlist(acc, world, segs, seps, p)
@@ -663,6 +673,8 @@ def replay(case: dict) -> list:
             # the recorded history for one path on one file-system object is the fixed operation sequence
             ask_twin(systems, p)
             for op in OPS_SEQ:
+                if op == 'walk' and case['cfg'] in ESCAPING_PREFIX_CONFIGS:
+                    continue
                 check_call(acc, world, case['cfg'], fs, prefix, op, segs, seps, p, narrow, broad)
             return [f for f in acc.all_failures() if f.case.get('op') == case['op']]
     finally:
